@@ -248,26 +248,38 @@ def coq_check_cases(work, header, cases, timeout):
         results = list(ex.map(run_shard, [(work, i, header, s, timeout) for i, s in enumerate(shards)]))
     failing, broken = [], []
     byid = {c["id"]: c for c in cases}
-    for r in results:
+
+    def resolve(sub, log, tag):
+        """a shard that did not evaluate (ill-typed or diverging case, or a time-out on a loaded
+        machine): split it into smaller shards, and finally run each case on its own, so that one
+        bad case does not hide the others and a slow machine does not turn into an alarm"""
+        nonlocal failing, broken
+        if len(sub) > 64:
+            chunks = [sub[i:i + 64] for i in range(0, len(sub), 64)]
+            with ThreadPoolExecutor(max_workers=NCPU) as ex:
+                rs = list(ex.map(run_shard, [(work, f"{tag}s{j}", header, ch, timeout * 2) for j, ch in enumerate(chunks)]))
+            for j, (ch, rr) in enumerate(zip(chunks, rs)):
+                if rr["ok"]:
+                    failing += rr["failing"]
+                else:
+                    resolve(ch, rr["log"], f"{tag}s{j}")
+            return
+        with ThreadPoolExecutor(max_workers=NCPU) as ex:
+            rs = list(ex.map(run_shard, [(work, f"iso{c['id']}", header, [c], timeout * 2) for c in sub]))
+        for c, rr in zip(sub, rs):
+            if rr["ok"]:
+                failing += rr["failing"]
+            elif c.get("vernac"):
+                failing.append(c["id"])          # the generated obligation is not provable
+                c["rhs"] = "(obligation does not check) " + rr["log"][-1500:]
+            else:
+                broken.append((c["id"], rr["log"]))
+
+    for k, r in enumerate(results):
         if r["ok"]:
             failing += r["failing"]
         else:
-            # isolate: re-run each case of a broken shard on its own (bounded) so that one
-            # ill-typed or diverging case does not hide the others
-            sub = [byid[i] for i in r["ids"]]
-            if len(sub) <= 64:
-                with ThreadPoolExecutor(max_workers=NCPU) as ex:
-                    rs = list(ex.map(run_shard, [(work, f"iso{c['id']}", header, [c], timeout) for c in sub]))
-                for c, rr in zip(sub, rs):
-                    if rr["ok"]:
-                        failing += rr["failing"]
-                    elif c.get("vernac"):
-                        failing.append(c["id"])          # the generated obligation is not provable
-                        c["rhs"] = "(obligation does not check) " + rr["log"][-1500:]
-                    else:
-                        broken.append((c["id"], rr["log"]))
-            else:
-                broken += [(i, r["log"]) for i in r["ids"]]
+            resolve([byid[i] for i in r["ids"]], r["log"], f"r{k}")
     return sorted(set(failing)), broken, time.time() - t0
 
 
